@@ -30,8 +30,26 @@ def log(*a):
 
 # ----------------------------------------------------------------------------- stages
 def stage_prove(mod, tier):
-    """Build the closure of Properties/Cxx.v and read back Print Assumptions. Returns dict."""
-    target_v = mod.PROPERTIES_V
+    """All property files of the module (PROPERTIES_V + EXTRA_PROPERTIES_V): obligations are pooled."""
+    files = [mod.PROPERTIES_V] + list(getattr(mod, "EXTRA_PROPERTIES_V", []))
+    total = None
+    for f in files:
+        r = stage_prove_one(mod, tier, f)
+        if total is None:
+            total = r
+        else:
+            for k in ("obligations", "discharged", "failed", "cmds", "forbidden"):
+                total[k] += r[k]
+            total["axioms"].update(r["axioms"])
+            total["closure"] = sorted(set(total.get("closure", [])) | set(r.get("closure", [])))
+            if r["failed"] and not total.get("broken_file"):
+                total["broken_file"] = r.get("broken_file")
+                total["log_tail"] = r.get("log_tail", "")
+    return total
+
+
+def stage_prove_one(mod, tier, target_v):
+    """Build the closure of one Properties file and read back Print Assumptions. Returns dict."""
     res = {"obligations": [], "discharged": [], "failed": [], "axioms": {}, "cmds": [], "log_tail": "", "forbidden": []}
     src = (C.COQ / target_v).read_text()
     res["obligations"] = re.findall(r"^\s*(?:Theorem|Lemma|Corollary)\s+([A-Za-z0-9_']+)", src, re.M)
@@ -334,6 +352,11 @@ def main():
     if crashed:
         broken.append({"kind": "correspondence", "name": "driver died", "detail": obs[crashed[0]]["crash"][:800]})
 
+    if bad and violations and not replay:
+        for i in bad[:3]:
+            C.write_replay(prop, {"property": prop, "tier": tier, "seed": seed, "case_index": i, "case": cases[i], "observed": obs[i],
+                                  "broke": {"kind": "correspondence", "name": f"case {i}"}, "found_failing_input": False,
+                                  "note": "disagreement recorded next to the oracle violations of this run"})
     if broken and not violations and not replay:
         # search for a concrete failing input: more seeds through generator + oracle, time-boxed
         budget = 60 if tier == "quick" else 600
